@@ -65,6 +65,10 @@ EXPLANATION = (
     "table ends up covered is a fact about values and is not decided; "
     "independence of worker count is decided under C04.")
 
+EXPLANATION += (
+    " Round 6: the markers of a desperate pair are read at the pair's table index (R-COVER/desperate-pairs/pair-index)."
+)
+
 RULE_TEXT = (
     "one obligation per loop exit, per filled-slot condition, per "
     "bookkeeping store and per provenance relation")
@@ -579,8 +583,24 @@ def check_desperate(ctx):
         if a is None:
             continue
         t = ex.expand(a, n.id)
-        if t[0] == 'iterelem' and _has(
-                t, lambda x: _cname(x) == 'marker_mask_from_pair_idx'):
+        if t[0] != 'iterelem':
+            continue
+        # the markers of a desperate pair are looked up in the table by
+        # the pair's index in the *table* (taxonomy_idx_array[local]), not
+        # by its row number among the parent's pairs
+        by_global = _has(t, lambda x: x[0] == 'sub' and x[1] == (
+            'param', 'taxonomy_idx_array'))
+        from_table = _has(t, lambda x: x == ('param', 'marker_gene_array'))
+        ctx.ob(rule, '_choose_desperate_markers:pair-index', fi.loc(c),
+               by_global and from_table,
+               'the markers of a desperate pair are read from the table at '
+               'taxonomy_idx_array[row]' if by_global and from_table else
+               'the genes taken for a desperate pair are '
+               f'{fmt_term(t)[:90]}: not looked up in the marker table at '
+               'the pair\'s table index (taxonomy_idx_array[row]); on a '
+               'table that holds more than the parent\'s pairs the markers '
+               'of an unrelated pair are taken')
+        if True:
             # loop over where(marker_mask)[0]; the only bypass is the
             # already-selected test
             loop = getattr(c, '_parent', None)
